@@ -110,6 +110,10 @@ func main() {
 		os.Exit(2)
 	}
 	name := os.Args[1]
+	if name == "child-sync" {
+		childSync(os.Args[2:])
+		return
+	}
 	fs := flag.NewFlagSet(name, flag.ExitOnError)
 	tier := fs.String("tier", "quick", "")
 	seed := fs.Int64("seed", 1, "")
